@@ -427,6 +427,101 @@ func (c *Conn) clearEnvelope() {
 	c.fromReceived = false
 	c.recipients = nil
 }"""))
+variant("reply-lines-loop-split",
+  ("conn.go", """	text = strings.Split(strings.Join(text, "\\n"), "\\n")
+""", """	var lines []string
+	for _, t := range text {
+		lines = append(lines, strings.Split(t, "\\n")...)
+	}
+	text = lines
+"""))
+variant("errthreshold-local-const",
+  ("conn.go", """	c.errCount++
+	if c.errCount > errThreshold {""", """	const limit = errThreshold
+	c.errCount++
+	if c.errCount > limit {"""))
+variant("handle-early-return-style",
+  ("conn.go", """	case "RSET": // Reset session
+		c.reset()
+		c.writeResponse(250, EnhancedCode{2, 0, 0}, "Session reset")""", """	case "RSET": // Reset session
+		c.reset()
+		c.writeResponse(250, EnhancedCode{2, 0, 0}, "Session reset")
+		return"""))
+variant("mail-guard-combined",
+  ("conn.go", """	if c.helo == "" {
+		c.writeResponse(502, EnhancedCode{5, 5, 1}, "Please introduce yourself first.")
+		return
+	}
+	if c.bdatPipe != nil {
+		c.writeResponse(502, EnhancedCode{5, 5, 1}, "MAIL not allowed during message transfer")
+		return
+	}""", """	switch {
+	case c.helo == "":
+		c.writeResponse(502, EnhancedCode{5, 5, 1}, "Please introduce yourself first.")
+		return
+	case c.bdatPipe != nil:
+		c.writeResponse(502, EnhancedCode{5, 5, 1}, "MAIL not allowed during message transfer")
+		return
+	}"""))
+variant("finishbdat-helper-correct",
+  ("conn.go", """	if last {
+		c.lineLimitReader.LineLimit = c.server.MaxLineLength
+
+		c.bdatPipe.Close()
+
+		err := <-c.dataResult
+
+		if c.server.LMTP {
+			c.bdatStatus.fillRemaining(err)
+			for i, rcpt := range c.recipients {
+				code, enchCode, msg := dataErrorToStatus(<-c.bdatStatus.status[i])
+				c.writeResponse(code, enchCode, "<"+rcpt+"> "+msg)
+			}
+		} else {
+			c.writeResponse(dataErrorToStatus(err))
+		}
+
+		if err == errPanic {
+			c.Close()
+			return
+		}
+
+		c.reset()
+	} else {
+		c.writeResponse(250, EnhancedCode{2, 0, 0}, "Continue")
+	}
+}""", """	if last {
+		c.finishBdat()
+	} else {
+		c.writeResponse(250, EnhancedCode{2, 0, 0}, "Continue")
+	}
+}
+
+// finishBdat ends the message after its LAST chunk and reports the outcome.
+func (c *Conn) finishBdat() {
+	c.lineLimitReader.LineLimit = c.server.MaxLineLength
+
+	c.bdatPipe.Close()
+
+	err := <-c.dataResult
+
+	if c.server.LMTP {
+		c.bdatStatus.fillRemaining(err)
+		for i, rcpt := range c.recipients {
+			code, enchCode, msg := dataErrorToStatus(<-c.bdatStatus.status[i])
+			c.writeResponse(code, enchCode, "<"+rcpt+"> "+msg)
+		}
+	} else {
+		c.writeResponse(dataErrorToStatus(err))
+	}
+
+	if err == errPanic {
+		c.Close()
+		return
+	}
+
+	c.reset()
+}"""))
 if sys.argv[1:] == ['--export']:
     out = [{"id": "benign-" + n, "edits": [{"file": f, "old": o, "new": w} for f, o, w in V[n]]} for n in V]
     json.dump(out, open('/verif/liveness/benign.json', 'w'), indent=1)
